@@ -286,6 +286,11 @@ class Engine(ExprMixin, CallMixin, StmtMixin):
             from ..contracts import cc as _cc
             b, n = self.ev(e.args[0], p), self.ev(e.args[1], p)
             return T.scalar(T.Set(T.INT), _cc.COMPF(TH.supp_fn(T.TUP)(b.t), TH.members(b.t), self.coerce(n, T.INT).t, z3.BoolVal(True), z3.IntVal(0)))
+        if fn == "vsum" and len(e.args) == 1:          # vsum(d): the sum of the values of a dict of ints (sum(d.values()))
+            m = self.ev(e.args[0], p)
+            if not (isinstance(m.ty, T.Map) and m.ty.k == T.INT and m.ty.v == T.INT):
+                raise ContractError("vsum() of something that is not a dict of ints")
+            return T.sv_int(TH.VSUM(m.dom, m.val))
         if fn == "cpos" and len(e.args) == 4:          # cpos(rows, columns, i, j): coo_pos of the two coordinate lists (theory coo_pos_def)
             r, c = self.ev(e.args[0], p), self.ev(e.args[1], p)
             if r.ty == T.EMPTYLIST:
